@@ -170,18 +170,19 @@ def plant(rng, kind, cmd='cmd'):
     if kind == 'dup_plain':
         a = f.name('DUP')
         stmts[0] = stmts[0][:-1] + ' [<%s>];' % a
-        second = '<%s> ::= %s;' % (a, f.lit('second'))
-        return stmts + ['<%s> ::= %s;' % (a, f.lit()), second], 'DuplicateNonterminalDefinition', second[:len(a) + 2]
+        sec = f.lit('second')
+        second = '<%s> ::= %s;' % (a, sec)
+        return stmts + ['<%s> ::= %s;' % (a, f.lit()), second], 'DuplicateNonterminalDefinition', ('before', sec, '<%s>' % a)
     if kind == 'dup_shell':
         a = f.name('DUP')
         sh = rng.choice(SHELLS)
         stmts[0] = stmts[0][:-1] + ' [<%s>];' % a
-        return stmts + ['<%s@%s> ::= %s;' % (a, sh, c.cmd()), '<%s@%s> ::= %s;' % (a, sh, c.cmd())], ('DuplicateNonterminalDefinition', sh), None
+        return stmts + ['<%s@%s> ::= %s;' % (a, sh, c.cmd()), '<%s@%s> ::= %s;' % (a, sh, c.cmd())], ('DuplicateNonterminalDefinition', sh), ('nth', '<%s@%s>' % (a, sh), 2)
     if kind == 'varying_names':
         other = cmd + 'x'
         st = '%s %s;' % (other, f.lit())
         pos = rng.randint(1, len(stmts))
-        return stmts[:pos] + [st] + stmts[pos:], 'VaryingCommandNames', None
+        return stmts[:pos] + [st] + stmts[pos:], 'VaryingCommandNames', cmd
     if kind == 'no_call_variant':
         ds = [s for s in stmts if s.startswith('<')]
         return ds, 'MissingCallVariants', None
@@ -193,7 +194,7 @@ def plant(rng, kind, cmd='cmd'):
         bad = rng.choice(['csh', 'Bash', 'powershell', 'sh'])
         if rng.random() < 0.5:
             stmts[0] = stmts[0][:-1] + ' <%s>;' % a
-        return stmts + ['<%s@%s> ::= %s;' % (a, bad, c.cmd())], 'UnknownShell', bad + '>'
+        return stmts + ['<%s@%s> ::= %s;' % (a, bad, c.cmd())], 'UnknownShell', ('offset', '<%s@%s>' % (a, bad), len(a) + 2)
     if kind == 'non_command_spec':
         a = f.name('S')
         sh = rng.choice(SHELLS)
@@ -236,9 +237,10 @@ def plant(rng, kind, cmd='cmd'):
     if kind == 'parse_error':
         # only junk that cannot be closed by later text (no quotes, no `<`, no `{{{`)
         bad = rng.choice(['(', ')', ']', '[', '\\q', '|', '||', '...'])
-        junk = '%s %s;' % (f.lit('pe'), bad)
+        pe = f.lit('pe')
+        junk = '%s %s;' % (pe, bad)
         pos = rng.randint(1, len(stmts))
-        marker = junk
+        marker = pe
         return stmts[:pos] + [junk] + stmts[pos:], 'ParseError', marker
     raise ValueError(kind)
 
@@ -329,10 +331,25 @@ def relayout(stmts, rng, heavy=False):
 
 
 def position_of(text, marker):
-    """(line, byte column) of the first occurrence of marker, 1-based."""
+    """(line, byte column), 1-based, of the construct designated by marker:
+    str: first occurrence; ('before', anchor, target): last `target` before the first `anchor`;
+    ('nth', target, k): k-th occurrence; ('offset', target, n): first occurrence + n bytes."""
     b = text.encode('latin-1') if isinstance(text, str) else text
-    m = marker.encode('latin-1') if isinstance(marker, str) else marker
-    i = b.find(m)
+    enc = lambda x: x.encode('latin-1') if isinstance(x, str) else x
+    if isinstance(marker, tuple) and marker[0] == 'before':
+        a = b.find(enc(marker[1]))
+        i = b.rfind(enc(marker[2]), 0, a) if a >= 0 else -1
+    elif isinstance(marker, tuple) and marker[0] == 'nth':
+        i = -1
+        for _ in range(marker[2]):
+            i = b.find(enc(marker[1]), i + 1)
+            if i < 0:
+                break
+    elif isinstance(marker, tuple) and marker[0] == 'offset':
+        i = b.find(enc(marker[1]))
+        i = i + marker[2] if i >= 0 else -1
+    else:
+        i = b.find(enc(marker))
     if i < 0:
         return None
     line = b.count(b'\n', 0, i) + 1
